@@ -98,6 +98,22 @@ Lemma xfull_backlog :
   backlog_full (xpkt l1 (push 7 0) 500) = true.
 Proof. vm_compute. repeat split; reflexivity. Qed.
 
+(* Listener.Close: l.die closed, then the backlog is drained and every queued session closed.
+   Accepted sessions stay and are still fed; no new session is created afterwards. *)
+Definition xclosing : list (@event Z) :=
+  [ EvPacket (push 7 0) 1; EvPacket (push 7 0) 2; EvPacket (push 7 0) 3; EvAccept;
+    EvListenerClose;
+    EvBacklogClose; EvCloseEnd 1; EvBacklogClose; EvCloseEnd 2;
+    EvPacket (push 7 1) 1;                 (* the accepted session is still served *)
+    EvPacket (push 7 0) 4;                 (* a new peer: nothing is created any more *)
+    EvPacket (push 7 0) 2 ].               (* nor for a peer whose queued session was closed *)
+Lemma xclosed_listener :
+  let l := xrun l_empty xclosing in
+  closed l = true /\ accepts l = [] /\ pending l = [] /\ next_id l = 3 /\
+  sessions l = [(1, mkE 0 false (mkR 7 1 [push 7 0; push 7 1]))] /\
+  dequeued_log Z.eqb r_new r_input xconv xgate l_empty xclosing = [(1, 0); (2, 1); (3, 2)].
+Proof. vm_compute. repeat split; reflexivity. Qed.
+
 (* ---- regression note: the Close race that the repaired removeSession excludes ----------- *)
 (* s0 (conv 1) accepted at address 1; the application's Close closes `die`; the peer's new
    conversation (conv 2) replaces s0 by s1; the parked Close finishes. *)
